@@ -361,9 +361,10 @@ type PSSub struct {
 }
 
 // ParsePS interprets moveto/lineto/curveto/closepath and the ellipse/ellipsen procedures:
-//   cx cy rx ry a0 a1 rot ellipse  = translate, rotate, scale, "0 0 1 a0 a1 arc" (counter-clockwise,
-//   a1 raised by multiples of 360 until >= a0; a straight line joins the current point to the start)
-//   ellipsen uses arcn (clockwise, a1 lowered until <= a0).
+//
+//	cx cy rx ry a0 a1 rot ellipse  = translate, rotate, scale, "0 0 1 a0 a1 arc" (counter-clockwise,
+//	a1 raised by multiples of 360 until >= a0; a straight line joins the current point to the start)
+//	ellipsen uses arcn (clockwise, a1 lowered until <= a0).
 func ParsePS(s string) ([]PSSub, error) {
 	var subs []PSSub
 	var cur, start Pt
